@@ -3,6 +3,7 @@
 //! `build()` functions turn them into the repository's own values.
 
 pub mod nlri;
+pub mod presets;
 pub mod wire;
 
 use proptest::prelude::*;
